@@ -178,7 +178,21 @@ fn jitter_case(sub: &str, id: u64, explicit: Option<&Value>, r: &mut Report) {
     } else {
         gen_script(&mut p, class, n)
     };
-    let rounds = *p.pick(&[1u8, 1, 2, 3, 8, 64, 255]);
+    let mut rounds = *p.pick(&[1u8, 1, 2, 3, 8, 64, 255]);
+    let mut readings = readings;
+    let mut class_name = SCRIPT_CLASSES[class];
+    // one history in ten starts with a collection SOLVED (GF(2)) to give a rare word:
+    // 0, all ones, a zero half (assertions / sentinel values on the collected word)
+    if !with_tt && p.chance(1, 10) {
+        rounds = *p.pick(&[2u8, 3, 5]);
+        let t = super::jit::pick_target(&mut p, 0, rounds);
+        let start = 1_000_000 + p.below(1 << 40);
+        if let Some(sv) = solve_collection(&mut p, 0, rounds, start, t) {
+            readings = sv;
+            class_name = "solved";
+            r.cov(&format!("solved_first_word:{}", t.name()));
+        }
+    }
     let mut ops: Vec<String> = Vec::new();
     if with_tt {
         ops.push("test_timer".into());
@@ -194,7 +208,7 @@ fn jitter_case(sub: &str, id: u64, explicit: Option<&Value>, r: &mut Report) {
         };
         ops.push(o.show());
     }
-    jitter_run(readings, p.u64(), rounds, &ops, SCRIPT_CLASSES[class], sub, id, r);
+    jitter_run(readings, p.u64(), rounds, &ops, class_name, sub, id, r);
 }
 
 /// two consecutive hostile deltas (first and second differences at the i32 limits)
